@@ -221,7 +221,7 @@ def build_repo_bins():
 def build_train_hooks():
     """the `train` tool built from the working tree with vaporetto's `verif-hooks` feature (hook H5 records what the tool
     hands to the trainer); a target directory of its own, so the feature does not leak into the other tools"""
-    b = subprocess.run(["cargo", "build", "--release", "--offline", "-p", "train", "--features", "vaporetto/verif-hooks",
+    b = subprocess.run(["cargo", "build", "--release", "--offline", "-p", "train", "--features", "vaporetto/" + "verif-hooks",   # (split so that path-rewriting scratch copies leave it alone)
                         "--target-dir", os.path.join(ROOT, "target", "repo-hooks")], cwd="/repo", capture_output=True, text=True, env=ENV)
     if b.returncode != 0:
         print(b.stderr[-3000:])
